@@ -383,6 +383,11 @@ class DnsNameUncompressed(ParsableBase, Serializable):
             if not label:
                 break
 
+            try:
+                six.ensure_binary(label, 'idna')
+            except UnicodeError as e:
+                six.raise_from(InvalidValue(label, cls, 'labels'), e)
+
             labels.append(label)
 
         return cls(labels), parser.parsed_length
